@@ -169,6 +169,14 @@ def analyse(scn, out):
             cx.case('report.benchmark', 'chk_benchmark_return %s [%s] %s' % (q(before[-1]), '; '.join(q(c) for c in within), q(float(summary['benchmark_total_returns']))), dict(benchmark=bm))
         except Skip:
             cx.skipped += 1
+        spec = scn['cfg']['mod']['sys_analyser']['benchmark']
+        wgt = float(list(spec.values())[0]) if isinstance(spec, dict) else (float(spec.split(':')[1]) if ':' in spec else None)
+        if wgt is not None:
+            try:
+                cx.case('report.benchmark', 'chk_weighted_benchmark_return %s %s [%s] %s' % (q(wgt), q(before[-1]), '; '.join(q(c) for c in within), q(float(summary['benchmark_total_returns']))),
+                        dict(benchmark=bm, weight=wgt))
+            except Skip:
+                cx.skipped += 1
         if not close(summary['benchmark_total_returns'], exp, 1e-9):
             cx.hit('C18.benchmark_return', {}, dict(reported=summary['benchmark_total_returns'], expected=exp, benchmark=bm))
     elif bm:
